@@ -1033,6 +1033,12 @@ pub fn request_raw(db: &Db, op: &Op) -> Out {
             Out::Val(be.on_ts(*n, *i, *w))
         }
         Op::QInt(ty, d) => Out::Val(intern(db, *ty, *d, false).0),
+        Op::NewInput(v) => {
+            let c = Cell::new(db, *v);
+            let back = c.v(db);
+            cx.rec(Rec::Made { th: cur_thread(), variant: 9, ident: *v, f: back, g: 0, id: c.as_id().as_bits() });
+            Out::Val(back)
+        }
         _ => panic!("QL: not a request: {op:?}"),
     }
 }
@@ -1128,9 +1134,19 @@ impl Sess {
                 self.db.synthetic_write(sdur(*d));
                 Out::Unit
             }
-            Op::Q(_) | Op::Q2(..) | Op::Q0 | Op::Acc(_) | Op::QFld(..) | Op::QOnTs(..) | Op::QInt(..) => {
+            Op::Q(_) | Op::Q2(..) | Op::Q0 | Op::Acc(_) | Op::QFld(..) | Op::QOnTs(..) | Op::QInt(..) | Op::NewInput(_) => {
                 request_raw(&self.db, op)
             }
+            Op::Prefill(n) => {
+                let h = self.db.clone();
+                for i in 0..*n {
+                    let c = Cell::new(&h, i);
+                    cx.rec(Rec::Made { th: cur_thread(), variant: 9, ident: i, f: c.v(&h), g: 0, id: c.as_id().as_bits() });
+                }
+                drop(h);
+                Out::Unit
+            }
+            Op::Reclone => Out::Unit,
             Op::Swap(n) => {
                 let i = *n as usize;
                 let new = if self.swapped[i] {
